@@ -177,8 +177,15 @@ class PrimitiveTree(list):
     def searchSubtree(self, begin):
         """Return a slice object that corresponds to the
         range of values that defines the subtree which has the
-        element with index *begin* as its root.
+        element with index *begin* as its root. A negative *begin* counts
+        from the end of the tree, as for list indexing.
         """
+        if begin < 0:
+            # the walk below counts upwards: with a negative index it ran
+            # into position 0 (searchSubtree(-1) returned slice(-1, 0))
+            begin += len(self)
+            if begin < 0:
+                raise IndexError("PrimitiveTree index out of range")
         end = begin + 1
         total = self[begin].arity
         while total > 0:
